@@ -96,6 +96,7 @@ struct ArraySys {
             {"A.Compress", 0},  {"A.Drop", 0},       {"A.Drop", 1},         {"A.Drop", 2},           {"A.Drop(Size)", 0},
             {"A.Drop(Size+1)", 0}, {"A.Sort asc", 0}, {"A.Sort desc", 0},   {"A.Swap(first,last)", 0}, {"A.Detach+free", 0},
             {"A=Array(n)", 2},  {"A=Array(n,init)", 2}, {"*A.Last()=9", 0},
+            {"A+=own first item (const&)", 0}, {"A.Insert(own last item const&)", 0},
         };
         return o;
     }
@@ -298,6 +299,18 @@ struct ArraySys {
             }
             *a.Last() = T(9);
             ma.back()  = 9;
+        } else if (n == "A+=own first item (const&)") {
+            if (ma.empty()) {
+                return false;
+            }
+            a += (const T &)*a.First(); // the argument lives in the array that may have to grow
+            ma.push_back(ma.front());
+        } else if (n == "A.Insert(own last item const&)") {
+            if (ma.empty()) {
+                return false;
+            }
+            a.Insert((const T &)*a.Last());
+            ma.push_back(ma.back());
         } else {
             return false;
         }
